@@ -58,6 +58,7 @@ type callResult struct {
 	Hung     bool   // quiescent without having returned: it can never return
 	Dump     string // goroutine dump at the time of the verdict
 	Slow     bool   // wall-clock guard hit: inconclusive
+	Spinning bool   // keeps reading a permanently failing source (> 10^6 failed reads) instead of returning
 	Leaked   int    // library goroutines above the baseline after the grace period
 	LeakDump string
 }
@@ -65,6 +66,12 @@ type callResult struct {
 // callWatched runs fn under the quiescence detector. baseline = library goroutines
 // that existed before the call (e.g. leaked by an earlier failing case).
 func callWatched(fn func() (bool, error), wallLimit time.Duration) callResult {
+	return callWatchedProbe(fn, wallLimit, nil)
+}
+
+// callWatchedProbe: spinning() reports that the workflow keeps hammering a source that has failed for good
+// (more than a million failed Reads): it is not parked, but it will never return either.
+func callWatchedProbe(fn func() (bool, error), wallLimit time.Duration, spinning func() bool) callResult {
 	baseline := len(libraryGoroutines())
 	type ret struct {
 		v bool
@@ -144,6 +151,10 @@ func callWatched(fn func() (bool, error), wallLimit time.Duration) callResult {
 				}
 				res.Hung = true
 				res.Dump = sb.String()
+				return res
+			}
+			if spinning != nil && spinning() {
+				res.Spinning = true
 				return res
 			}
 			if time.Since(start) > wallLimit {
